@@ -85,13 +85,13 @@ def value_sets(tier):
     return {
         "s": S, "s2": [v for v in S2 if len(v) == 2], "s3": [v for v in S if len(v) >= 2],
         "smax": [v for v in S2 if len(v) <= 2],
-        "sb": S2, "aff": S2, "lit": S2, "two": S2,
+        "sb": S, "aff": S, "lit": S, "two": S2,
         "i": INTS, "si": INTS + [-x for x in INTS if x], "fd": [0, 7, 12, 123, 999],
         "imm": [3, 5, 9],
         "f": FLOATS, "sf": FLOATS + [-x for x in FLOATS] ,
         "any": ["a", "b"], "u": [U1, U2],
         "p": P, "pb": P, "pe": P[: len(P) // 2], "pp": P[:200],
-        "sm": S2, "sd": S2, "def": [1, 2, 10], "defs": ["en", "é", "a b"],
+        "sm": S, "sd": S, "def": [1, 2, 10], "defs": ["en", "é", "a b"],
         # other configurations
         "su": S2[:120], "h": S2[:120], "hv": S2[:120],
     }
